@@ -200,6 +200,7 @@ type Expect struct {
 	FatalDist  int    // chain distance between the colliding plugins
 	FatalTgt   string // target kind of the collision (SELF / T*)
 	Hazard     string // non-empty: shape whose outcome the properties do not fix
+	SpellingMix bool  // the case uses two spellings of one mount destination ("/m2" and "/m2/")
 	Views      []View // create: view shown to chain position i (valid for i <= FatalAt)
 	ReqRes     []map[string]string
 	Final      View
@@ -240,7 +241,7 @@ func applyOpsToView(v *View, s Script) {
 		if op.Act == "del" {
 			continue
 		}
-		w := valW(op.ValOf, w)
+		w := famW(op.Fam, op.ValOf, w, true)
 		switch op.Fam {
 		case "ann":
 			v.Ann[op.Key] = strVal(w, "ann", op.Key)
@@ -267,7 +268,7 @@ func applyOpsToView(v *View, s Script) {
 		case "cgroups":
 			v.Cgroups = "/cg/" + whoName(w)
 		case "oom":
-			v.Oom = fmt.Sprint(100 + w)
+			v.Oom = fmt.Sprint(oomVal(w))
 		default:
 			v.Res[op.Fam] = expectedResValue(op.Fam, w)
 		}
@@ -306,6 +307,18 @@ func Predict(c Case) *Expect {
 			e.Fatal, e.FatalDesc, e.FatalAt = kind, desc, at
 		}
 	}
+	// two spellings of one directory: whether they name "the same mount destination" is not
+	// fixed by the properties (the code compares destinations as written)
+	plain, slash := has(c.Orig.Mounts, "/m2"), has(c.Orig.Mounts, "/m2/")
+	for _, s := range c.Chain {
+		for _, op := range s.Ops {
+			if op.Fam == "mount" {
+				plain = plain || op.Key == "/m2"
+				slash = slash || op.Key == "/m2/"
+			}
+		}
+	}
+	e.SpellingMix = plain && slash
 	for pos, s := range c.Chain {
 		if e.Fatal != "" {
 			break
@@ -362,7 +375,7 @@ func Predict(c Case) *Expect {
 				break
 			}
 			owner[it] = pos
-			w := valW(op.ValOf, w)
+			w := famW(op.Fam, op.ValOf, w, true)
 			switch op.Fam {
 			case "rlimit":
 				e.Appenders["rlimit"]++
@@ -432,7 +445,7 @@ func Predict(c Case) *Expect {
 			}
 			for _, f := range u.Fields {
 				owner[item{u.Target, "res", f}] = pos
-				val := expectedResValue(f, valW(u.ValOf, w))
+				val := expectedResValue(f, famW(fieldFam(f), u.ValOf, w, false))
 				e.Updates[u.Target][f] = val
 				if c.Kind == "update" && u.Target == "SELF" {
 					req[f] = val
